@@ -170,6 +170,10 @@ def tla_value(v):
 def run_tlc(spec, cfg, meta, workers=16, timeout=1500, env_extra=None, simulate=None, java_opts=None, heap=None):
     env = dict(os.environ)
     env["JAVA_TOOL_OPTIONS"] = java_opts or JAVA_MC_OPTS
+    # TLC unpacks module jars into java.io.tmpdir; keep that inside the per-run work directory
+    jtmp = os.path.join(os.path.dirname(meta), "jtmp")
+    os.makedirs(jtmp, exist_ok=True)
+    env["JAVA_TOOL_OPTIONS"] += " -Djava.io.tmpdir=" + jtmp
     if env_extra:
         env.update(env_extra)
     cmd = ["timeout", str(timeout), "tlc"]
@@ -183,6 +187,7 @@ def run_tlc(spec, cfg, meta, workers=16, timeout=1500, env_extra=None, simulate=
     p = subprocess.run(cmd, cwd=SPEC, env=env, stdout=subprocess.PIPE, stderr=subprocess.STDOUT, text=True)
     out = p.stdout
     shutil.rmtree(meta, ignore_errors=True)
+    shutil.rmtree(jtmp, ignore_errors=True)
     if p.returncode == 124:
         raise ToolError("TLC timed out after %ss on %s" % (timeout, spec))
     return out, time.time() - t0
